@@ -844,10 +844,10 @@ impl World {
         Value::Object(post)
     }
 
-    pub fn advance(&mut self, dh: u64, dt: u64) {
+    pub fn advance(&mut self, dh: u64, dt: u64, dns: u64) {
         self.app.update_block(|b| {
             b.height += dh;
-            b.time = b.time.plus_seconds(dt);
+            b.time = b.time.plus_seconds(dt).plus_nanos(dns);
         });
     }
 
